@@ -148,7 +148,7 @@ Qed.
 Lemma dproj_op d o : is_ds d = true -> op_no_core_txn o = true ->
   dproj d (prog_of_op fixed o) = filter nonempty (op_batches d o).
 Proof.
-  intros Hd Hc. destruct o as [p|ks ao uo|x isnew|x m|x present]; cbn [prog_of_op op_batches].
+  intros Hd Hc. destruct o as [p|ks ao uo|ks|x isnew|x m|x present]; cbn [prog_of_op op_batches].
   - unfold batch_prog. change ([Acq (p_ds p); Read (p_ds p); Commit [(p_ds p, p_ms p)]] ++ part_update p ++ [Rel (p_ds p)])
       with ([Acq (p_ds p); Read (p_ds p); Commit [(p_ds p, p_ms p)]] ++ (part_update p ++ [Rel (p_ds p)])).
     rewrite !dproj_app, dproj_part_update by assumption. unfold dproj. cbn.
@@ -157,6 +157,8 @@ Proof.
   - cbn in Hc. apply negb_true_iff in Hc. cbn [v_core fixed]. rewrite Hc.
     unfold txn_prog. fold (updates_of ks uo). rewrite !dproj_app, dproj_updates by assumption.
     unfold dproj. rewrite commits_acqs, commits_reads, commits_rels. cbn. now rewrite app_nil_r.
+  - cbn in Hc. apply negb_true_iff in Hc. cbn [v_core fixed]. rewrite Hc.
+    unfold dproj. now rewrite commits_app, commits_acqs, commits_rels.
   - destruct isnew; unfold dproj; cbn; destruct d; cbn in *; try discriminate; reflexivity.
   - destruct m; unfold dproj; cbn; destruct d; cbn in *; try discriminate; reflexivity.
   - destruct present; unfold dproj; cbn; destruct d; cbn in *; try discriminate; reflexivity.
@@ -187,7 +189,7 @@ Proof.
   revert es. induction os as [|o os IH]; intros [|e es]; cbn; try congruence.
   rewrite !andb_true_iff. intros [Ho Hos] [He Hes]. split; [|now apply IH].
   apply eqb_prop in He. subst e.
-  destruct o as [p|ks ao uo|x isnew|x m|x present]; cbn in *; try reflexivity.
+  destruct o as [p|ks ao uo|ks|x isnew|x m|x present]; cbn in *; try reflexivity.
   - apply negb_true_iff in Ho. rewrite Ho. reflexivity.
   - destruct m; reflexivity.
   - destruct present; reflexivity.
@@ -208,7 +210,7 @@ Proof.
   induction os as [|o os IH]; intros [|e es]; cbn; try congruence.
   rewrite !andb_true_iff. intros [He Hes] [Ho Hos]. rewrite (IH es Hes Hos). f_equal.
   apply eqb_prop in He. subst e. unfold ack_batches. cbn [fst snd].
-  destruct o as [p|ks ao uo|x isnew|x m|x present]; cbn in *; try reflexivity.
+  destruct o as [p|ks ao uo|ks|x isnew|x m|x present]; cbn in *; try reflexivity.
   - apply negb_true_iff in Ho. now rewrite Ho.
   - now destruct m.
   - now destruct present.
@@ -249,7 +251,7 @@ Proof.
   { apply Forall_map. apply Forall_forall. intros os Hos. rewrite forallb_forall in Safe. apply guarded_ops; auto. }
   destruct (r_outcome r) as [|[q|q|]] eqn:Eo; try discriminate.
   2:{ rewrite (never_stuck _ _ Ford S) in Hout. discriminate. }
-  rewrite !andb_true_iff in Hout. destruct Hout as [[[T Fm] Sn] Bd].
+  rewrite !andb_true_iff in Hout. destruct Hout as [[[[[T Fm] Sn] Bd] Tm] Lk].
   repeat split; try assumption; try reflexivity.
   - now apply errs_spec_all.
   - destruct (serializable_terminal _ _ Fg S T) as [L P].
